@@ -8,7 +8,7 @@ class StaleEdit(Exception):
     """The edit no longer applies to the current tree (skipped, reported)"""
 
 
-def apply_edit(src, edit):
+def apply_edit(src, edit, _check=True):
     """`edit` is ``(old, new)`` – `old` must occur exactly once –,
     ``(old, new, n)`` – replace the n-th (0-based) occurrence –, a list of
     such edits, or a callable ``src -> src``.  The result must parse."""
@@ -19,8 +19,7 @@ def apply_edit(src, edit):
     elif isinstance(edit, list):
         new = src
         for e in edit:
-            new = apply_edit(new, e)
-        return new
+            new = apply_edit(new, e, _check=False)
     else:
         old, rep = edit[0], edit[1]
         cnt = src.count(old)
@@ -34,7 +33,7 @@ def apply_edit(src, edit):
             if cnt != 1:
                 raise StaleEdit(f"pattern occurs {cnt}× (need 1): {old!r}")
             new = src.replace(old, rep)
-    if not new.rstrip().endswith(("\\",)):
+    if _check and not new.rstrip().endswith(("\\",)):
         try:
             if "cdef " not in new and "cimport " not in new:
                 ast.parse(new)
